@@ -859,6 +859,8 @@ package flags
 // choice list rejects the value.
 //@ func (option *Option) Set(value *string) (err error)
 //@   props C01 C05 C11 C04
+// (C11: the invalid-choice message lists EVERY allowed value - a single one too)
+//@   at[C11] call newErrorf "Invalid value `%s' for option `%s'. Allowed values are: %s": len(option.Choices) >= 1 && allowed == ite(len(option.Choices) == 1, option.Choices[0], strings.Join(option.Choices[:len(option.Choices)-1], ", ") + " or " + option.Choices[len(option.Choices)-1])
 //@   traced
 //@   requires option != nil
 //@   let e0 := ncalls(Option.empty)
